@@ -198,6 +198,21 @@ def run(ctx):
         "[M_x for M_x in self.kernel if M_x.line_number in frozenset(%s[:-1])]"))
     ctx.check(ok, "R5", "return [line for line in kernel if line.line_number in path]", f.where(rets[0]) if rets else f.where(),
               "get_critical_path returns %s" % ([U(r.value)[:100] for r in rets]), f.qname, "returned lines")
+    # ------------------------------------------------------------------ R6 edge weights (the chain's "producer-to-consumer latency")
+    from . import c03
+    from .. import report as _report
+    sub_ = _report.Ctx("C03", ctx.repo, ctx.tier, ctx.data)
+    c03._r7(sub_)
+    ctx.rule("R6", "edge weights of the searched graph: latency without the load stage (C03-R7), write-back and forwarding latencies")
+    for ob in sub_.obligations:
+        new_ob = dict(ob)
+        new_ob["rule"] = "R6"
+        ctx.obligations.append(new_ob)
+    for fd_ in sub_.findings:
+        ctx.obligations.pop(next(i for i, o in enumerate(ctx.obligations) if o.get("key") == fd_.key))
+        ctx.bad("R6", fd_.construct, fd_.where, fd_.detail, fd_.scope, fd_.construct)
+    for u in getattr(sub_, "unknowns", []):
+        ctx.unknown("R6", "edge weight", "", u)
     # ------------------------------------------------------------------ R4 totals
     ctx.rule("R4", "CP total: text and dict use the same expression over get_critical_path()")
     cv = ctx.func("Frontend.combined_view")
